@@ -36,8 +36,11 @@ def run(chk):
         inst = " ".join(INST[x] for x in c["pat"])
         # unrelated usable macros are defined before and after the pattern under test
         # ... and a second, always ambiguous macro (it ends in a statement-sequence slot) directly behind the pattern under test
-        defs = ("// macro library\n\nDEFINE PRIO 5 UNREL AS ) ) END DEFINE\nDEFINE\n  %s\nAS ) END DEFINE\n"
-                "DEFINE PRIO 3 AMBIG <P> AS ) END DEFINE\nDEFINE PRIO 5 UNRELB AS ) ) ) END DEFINE\n" % pat)
+        # every second rejected pattern shares its priority with the usable macro defined before it (a rejected macro must not slip into
+        # the priority class of an accepted one); accepted patterns keep the lowest priority so that the unrelated macros go first
+        head = "DEFINE PRIO 5" if (c["conflict"] and i % 2) else "DEFINE"
+        defs = ("// macro library\n\nDEFINE PRIO 5 UNREL AS ) ) END DEFINE\n%s\n  %s\nAS ) END DEFINE\n"
+                "DEFINE PRIO 3 AMBIG <P> AS ) END DEFINE\nDEFINE PRIO 5 UNRELB AS ) ) ) END DEFINE\n" % (head, pat))
         inputs.append({"i": i, "files": {"m": 'include "defs"\n%s\nUNREL\nUNRELB\n' % inst, "defs": defs}, "main": "m", "passes": [64]})
         c["_inst"] = inst
     got = {}
